@@ -28,6 +28,11 @@ fn oname(o: Byteorder) -> &'static str {
 fn oword(o: Byteorder) -> &'static str {
     if o == BIG { "big" } else { "little" }
 }
+/// the same order reached another way: the opposite order is selected with its word, a codec is
+/// used once, then the order is changed by a plain store to the `big?` variable
+fn ostore(o: Byteorder) -> String {
+    format!("{} 0 u8! drop {} ! big?", oword(opposite(o)), if o == BIG { 1 } else { 0 })
+}
 fn opposite(o: Byteorder) -> Byteorder {
     if o == BIG { LITTLE } else { BIG }
 }
@@ -489,6 +494,7 @@ fn read_words(w: usize, order: Byteorder) -> Vec<RdWord> {
     let mut v = vec![
         RdWord { src: format!("{} uint", w), prefix: oword(order).into(), signed: false, class: "uint".into() },
         RdWord { src: format!("{} int", w), prefix: oword(order).into(), signed: true, class: "int".into() },
+        RdWord { src: format!("{} uint", w), prefix: ostore(order), signed: false, class: "uint:order-stored".into() },
     ];
     if [8, 16, 32, 64].contains(&w) {
         let sfx = oname(order);
@@ -509,6 +515,7 @@ fn pack_words(w: usize, order: Byteorder) -> Vec<PkWord> {
     let mut v = vec![
         PkWord { src: format!("{} {} uint!", oword(order), w), class: "uint!".into() },
         PkWord { src: format!("{} {} int!", oword(order), w), class: "int!".into() },
+        PkWord { src: format!("{} {} uint!", ostore(order), w), class: "uint!:order-stored".into() },
     ];
     if [8, 16, 32, 64].contains(&w) {
         let sfx = oname(order);
